@@ -117,6 +117,18 @@ def fit_bad_calls(w):
         "add_matrix_parameter_constraint:unknown": lambda: f.add_matrix_parameter_constraint([p0, "nope"], [1.0, 2.0], [[0.1, 0.0], [0.0, 0.1]]),
         "add_matrix_parameter_constraint:asymmetric": lambda: f.add_matrix_parameter_constraint([p0, p1], [1.0, 2.0], [[0.1, 0.02], [0.0, 0.1]]),
         "add_matrix_parameter_constraint:shape": lambda: f.add_matrix_parameter_constraint([p0, p1], [1.0, 2.0], [[0.1, 0.0, 0.0], [0.0, 0.1, 0.0], [0.0, 0.0, 0.1]]),
+        "add_matrix_parameter_constraint:shape-1d": lambda: f.add_matrix_parameter_constraint([p0, p1], [1.0, 2.0], [0.1, 0.1]),
+        "add_matrix_parameter_constraint:shape-row": lambda: f.add_matrix_parameter_constraint([p0, p1], [1.0, 2.0], [[0.1, 0.1]]),
+        "add_matrix_parameter_constraint:shape-column": lambda: f.add_matrix_parameter_constraint([p0, p1], [1.0, 2.0], [[0.1], [0.1]]),
+        "add_matrix_parameter_constraint:shape-scalar": lambda: f.add_matrix_parameter_constraint([p0, p1], [1.0, 2.0], 0.1),
+        "add_matrix_parameter_constraint:shape-3d": lambda: f.add_matrix_parameter_constraint([p0, p1], [1.0, 2.0], [[[0.1], [0.0]], [[0.0], [0.1]]]),
+        "add_matrix_parameter_constraint:values-2d": lambda: f.add_matrix_parameter_constraint([p0, p1], [[1.0, 2.0]], [[0.1, 0.0], [0.0, 0.1]]),
+        "add_matrix_parameter_constraint:unc-length": lambda: f.add_matrix_parameter_constraint([p0, p1], [1.0, 2.0], [[1.0, 0.2], [0.2, 1.0]], matrix_type="cor", uncertainties=[0.1, 0.2, 0.3]),
+        "add_matrix_error:shape-1d": lambda: f.add_matrix_error(*ax, err_matrix=np.ones(n) * 0.04, matrix_type="cov"),
+        "add_matrix_error:shape-row": lambda: f.add_matrix_error(*ax, err_matrix=np.ones((1, n)) * 0.04, matrix_type="cov"),
+        "add_matrix_error:shape-column": lambda: f.add_matrix_error(*ax, err_matrix=np.ones((n, 1)) * 0.04, matrix_type="cov"),
+        "add_matrix_error:shape-scalar": lambda: f.add_matrix_error(*ax, err_matrix=0.04, matrix_type="cov"),
+        "add_matrix_error:cor-errval-length": lambda: f.add_matrix_error(*ax, err_matrix=C, matrix_type="cor", err_val=_vec(n + 1)),
         "add_matrix_parameter_constraint:lengths": lambda: f.add_matrix_parameter_constraint([p0, p1], [1.0], [[0.1]]),
         "add_matrix_parameter_constraint:cor-diag": lambda: f.add_matrix_parameter_constraint([p0, p1], [1.0, 2.0], [[1.0, 0.2], [0.2, 0.9]], matrix_type="cor", uncertainties=[0.1, 0.2]),
         "add_matrix_parameter_constraint:cor-no-unc": lambda: f.add_matrix_parameter_constraint([p0, p1], [1.0, 2.0], [[1.0, 0.2], [0.2, 1.0]], matrix_type="cor"),
@@ -325,6 +337,13 @@ def constructor_cases():
         ("XYFit:unknown-algorithm", lambda: kafe2.XYFit([x, y], dynamic_error_algorithm="both")),
         ("Constraint:asymmetric", lambda: GaussianMatrixParameterConstraint([0, 1], [1.0, 2.0], [[0.1, 0.02], [0.0, 0.1]])),
         ("Constraint:shape", lambda: GaussianMatrixParameterConstraint([0, 1], [1.0, 2.0], np.eye(3))),
+        ("Constraint:shape-1d", lambda: GaussianMatrixParameterConstraint([0, 1], [1.0, 2.0], [0.1, 0.1])),
+        ("Constraint:shape-row", lambda: GaussianMatrixParameterConstraint([0, 1], [1.0, 2.0], [[0.1, 0.1]])),
+        ("Constraint:shape-column", lambda: GaussianMatrixParameterConstraint([0, 1], [1.0, 2.0], [[0.1], [0.1]])),
+        ("Constraint:shape-scalar", lambda: GaussianMatrixParameterConstraint([0, 1], [1.0, 2.0], 0.1)),
+        ("Constraint:indices-length", lambda: GaussianMatrixParameterConstraint([0, 1, 2], [1.0, 2.0], [[0.1, 0.0], [0.0, 0.1]])),
+        ("MatrixGaussianError:shape-1d", lambda: __import__("kafe2.core.error", fromlist=["x"]).MatrixGaussianError([0.1, 0.2], "cov")),
+        ("MatrixGaussianError:non-square", lambda: __import__("kafe2.core.error", fromlist=["x"]).MatrixGaussianError([[0.1, 0.0, 0.0], [0.0, 0.1, 0.0]], "cov")),
         ("Constraint:cor-diag", lambda: GaussianMatrixParameterConstraint([0, 1], [1.0, 2.0], [[1.0, 0.1], [0.1, 1.1]], matrix_type="cor", uncertainties=[0.1, 0.1])),
         ("Constraint:cor>1", lambda: GaussianMatrixParameterConstraint([0, 1], [1.0, 2.0], [[1.0, 1.2], [1.2, 1.0]], matrix_type="cor", uncertainties=[0.1, 0.1])),
         ("SimpleGaussianError:rho", lambda: __import__("kafe2.core.error", fromlist=["x"]).SimpleGaussianError([0.1, 0.2], 1.5)),
